@@ -21,6 +21,7 @@
 #include <random>
 #include <string>
 #include <cstdio>
+#include <chrono>
 
 namespace vs {
 using namespace muscle::verif;
@@ -45,10 +46,13 @@ struct State {
    int running;
    std::condition_variable ctl;
    bool deadlock, active;
+   bool hung;            // a thread went into a real blocking primitive and did not come back within the watchdog: the code's signalling disagrees with what its hooks announced
+   int watchdogSeconds;
    Mode mode;
    std::map<const void *, std::pair<int,int> > mutexOwner;    // mutex -> (owner, count)
    std::map<const void *, long> wcPending, sockPending;
-   std::map<const void *, bool> sockEOF, threadEnded, threadRegistered;
+   std::map<const void *, bool> sockEOF, threadEnded;
+   std::map<const void *, int> threadCreatedN, threadRegisteredN;      // a Thread object can be started several times
    std::mt19937 rng;
    unsigned long steps;
    int stickiness;       // RANDOM: percent probability of letting the current thread continue if it can
@@ -61,7 +65,7 @@ struct State {
    std::function<void(LThread *)> onTimeout;                           // optional: the scheduler made a timed wait of this thread time out
    std::vector<Event> events;
    std::vector<int> decisions;   // RANDOM: the schedule taken (for replay files)
-   State() : running(RUN_NONE), deadlock(false), active(false), mode(RANDOM), steps(0), stickiness(0), atomicLocks(false) {}
+   State() : running(RUN_NONE), deadlock(false), active(false), hung(false), watchdogSeconds(30), mode(RANDOM), steps(0), stickiness(0), atomicLocks(false) {}
 };
 static State S;
 static thread_local int tl_id = -1;
@@ -120,7 +124,7 @@ static inline int Yield(int kind, const void * obj, long arg)
    if (!S.active) return 0;
    std::unique_lock<std::mutex> lk(S.G);
    if (kind == YIELD_THREAD_BEGIN) {
-      const int id = RegisterSelf(obj); S.threadRegistered[obj] = true; S.ctl.notify_all();
+      const int id = RegisterSelf(obj); S.threadRegisteredN[obj]++; S.threadEnded[obj] = false; S.ctl.notify_all();
       LThread * me = S.LT[id]; me->kind = kind;
       me->cv.wait(lk, [me]{return S.running == me->id;});
       me->kind = 0;
@@ -128,7 +132,7 @@ static inline int Yield(int kind, const void * obj, long arg)
    }
    if (tl_id < 0) return 0;                      // a thread the scheduler does not manage (the controller)
    LThread * me = S.LT[tl_id];
-   if (kind == YIELD_THREAD_CREATED) {S.ctl.wait(lk, [obj]{return S.threadRegistered[obj];}); return 0;}   // wait (for real) until the child has registered
+   if (kind == YIELD_THREAD_CREATED) {if (S.onYield) S.onYield(me, kind, obj, arg); const int n = ++S.threadCreatedN[obj]; S.ctl.wait(lk, [obj, n]{return S.threadRegisteredN[obj] >= n;}); return 0;}   // wait (for real) until the child has registered
    S.steps++;
    switch(kind) {
       case YIELD_MUTEX_UNLOCK:    { std::pair<int,int> & o = S.mutexOwner[obj]; if (o.second > 0) o.second--; if (me->depth > 0) me->depth--; } break;
@@ -187,7 +191,7 @@ static inline void Reset(unsigned seed, Mode mode)
 {
    // LThreads of earlier executions are leaked on purpose if they are parked (deadlock); finished ones are deleted
    for (size_t i=0; i<S.LT.size(); i++) if (S.LT[i]->finished) delete S.LT[i];
-   S.LT.clear(); S.mutexOwner.clear(); S.wcPending.clear(); S.sockPending.clear(); S.sockEOF.clear(); S.threadEnded.clear(); S.threadRegistered.clear();
+   S.LT.clear(); S.mutexOwner.clear(); S.wcPending.clear(); S.sockPending.clear(); S.sockEOF.clear(); S.threadEnded.clear(); S.threadCreatedN.clear(); S.threadRegisteredN.clear();
    S.running = (mode == DIRECTED) ? RUN_CONTROLLER : RUN_NONE; S.deadlock = false; S.rng.seed(seed); S.mode = mode; S.steps = 0; S.events.clear(); S.decisions.clear(); S.blockedDesc.clear();
    S.active = true;
 }
@@ -200,7 +204,7 @@ static inline bool RunAllRandom(size_t nHarnessThreads)
    S.ctl.wait(lk, [nHarnessThreads]{return S.LT.size() >= nHarnessThreads;});
    const int first = PickRandom(NULL);
    if (first < 0) {EndOrDeadlock();} else {S.decisions.push_back(first); S.running = first; S.LT[first]->cv.notify_one();}
-   S.ctl.wait(lk, []{return S.running == RUN_ENDED;});
+   if (!S.ctl.wait_for(lk, std::chrono::seconds(S.watchdogSeconds), []{return S.running == RUN_ENDED;})) {S.hung = true; S.blockedDesc = " a thread is blocked for real inside a primitive the scheduler expected not to block"; return false;}
    return !S.deadlock;
 }
 
@@ -219,7 +223,7 @@ static inline StepResult Step(int t, bool fireTimeout = false)
    }
    if (!Runnable(l)) return STEP_NOT_RUNNABLE;
    S.running = t; l->cv.notify_one();
-   S.ctl.wait(lk, []{return S.running == RUN_CONTROLLER;});
+   if (!S.ctl.wait_for(lk, std::chrono::seconds(S.watchdogSeconds), []{return S.running == RUN_CONTROLLER;})) {S.hung = true; return STEP_BLOCKED;}
    if (l->finished) return STEP_FINISHED;
    return Runnable(l) ? STEP_STOPPED : STEP_BLOCKED;
 }
@@ -233,6 +237,8 @@ static inline bool Drain()
    S.ctl.wait(lk, []{return S.running == RUN_ENDED;});
    return !S.deadlock;
 }
+// the harness tells the scheduler that a wake-up socket pair was closed / re-created (Thread::CloseSockets has no hook)
+static inline void ForgetSocket(const void * tsd) {std::lock_guard<std::mutex> lk(S.G); S.sockPending.erase(tsd); S.sockEOF.erase(tsd);}
 static inline void Deactivate() {S.active = false;}
 }  // namespace vs
 #endif
